@@ -35,65 +35,137 @@ Proof.
 Qed.
 
 (* ---- the SDP a group holds is that of its accepted RTSP input ------------------------------------------- *)
+Lemma lookup_sdp_none_table : forall (l : list (N * group)) s,
+  lookup_sdp s (map (fun sg : N * group => (fst sg, @None owner)) l) = None.
+Proof.
+  intros l s. unfold lookup_sdp. induction l as [|[k g] t IH]; [reflexivity|].
+  cbn [map fst lookup]. destruct (N.eqb s k); [reflexivity|exact IH].
+Qed.
+
+Definition source_of (st : state) (s : N) : option owner :=
+  match get_group st s with Some g => sdp_source s g | None => None end.
+
+(* whatever a group holds is the SDP of its accepted RTSP input: it holds that one or none *)
+Definition SDP_OK (ds : dstate) : Prop :=
+  forall s, lookup_sdp s (ds_sdp ds) = None \/ lookup_sdp s (ds_sdp ds) = source_of (cs_base (ds_shell ds)) s.
+(* ... and exactly that one as long as the server has not been disposed *)
 Definition SDP_INV (ds : dstate) : Prop :=
-  forall s, lookup_sdp s (ds_sdp ds) =
-            match get_group (cs_base (ds_shell ds)) s with Some g => sdp_source s g | None => None end.
+  forall s, lookup_sdp s (ds_sdp ds) = source_of (cs_base (ds_shell ds)) s.
 
 Lemma sdp_inv_init : SDP_INV init_dstate.
 Proof. intros s. reflexivity. Qed.
+Lemma sdp_inv_ok : forall ds, SDP_INV ds -> SDP_OK ds.
+Proof. intros ds H s. right. apply H. Qed.
 
-Lemma sdp_table_inv : forall st st1 ce tbl,
-  (forall s, lookup_sdp s tbl = match get_group st s with Some g => sdp_source s g | None => None end) ->
-  forall s, lookup_sdp s (sdp_table true st st1 ce tbl) = match get_group st1 s with Some g => sdp_source s g | None => None end.
+Lemma sdp_after_value : forall st st1 ce tbl s ga,
+  lookup s (st_groups st1) = Some ga ->
+  snd (sdp_after true st (rtsp_pull_refused st st1 ce) tbl (s, ga)) =
+  match get_group st s with
+  | Some gb => if slots_eqb gb ga then lookup_sdp s tbl else sdp_source s ga
+  | None => sdp_source s ga
+  end.
 Proof.
-  intros st st1 ce tbl H s. unfold sdp_table. rewrite lookup_sdp_table. change (get_group st1 s) with (lookup s (st_groups st1)).
-  destruct (lookup s (st_groups st1)) as [ga|]; [|reflexivity].
-  unfold sdp_after. cbn [snd]. destruct (get_group st s) as [gb|] eqn:Eb; [|reflexivity].
-  destruct (slots_eqb gb ga) eqn:Es; [|reflexivity].
-  apply slots_eqb_slots in Es.
-  assert (X : lookup_sdp s tbl = sdp_source s ga) by (rewrite H, Eb; apply slots_source; assumption).
-  destruct (rtsp_pull_refused st st1 ce) as [[s' i]|]; [rewrite andb_false_r|]; exact X.
+  intros st st1 ce tbl s ga _. unfold sdp_after. cbn [snd]. destruct (get_group st s) as [gb|]; [|reflexivity].
+  destruct (slots_eqb gb ga); [|reflexivity].
+  destruct (rtsp_pull_refused st st1 ce) as [[s' i]|]; [rewrite andb_false_r|]; reflexivity.
 Qed.
 
-Theorem sdp_inv_step : forall fsh fx cf ds de, SDP_INV ds -> SDP_INV (fst (fst (dstep true fsh fx cf ds de))).
+Lemma sdp_table_ok : forall st st1 ce tbl,
+  (forall s, lookup_sdp s tbl = None \/ lookup_sdp s tbl = source_of st s) ->
+  forall s, lookup_sdp s (sdp_table true st st1 ce tbl) = None \/ lookup_sdp s (sdp_table true st st1 ce tbl) = source_of st1 s.
+Proof.
+  intros st st1 ce tbl H s. unfold sdp_table. destruct (is_dispose ce); [left; apply lookup_sdp_none_table|].
+  rewrite lookup_sdp_table. unfold source_of. change (get_group st1 s) with (lookup s (st_groups st1)).
+  destruct (lookup s (st_groups st1)) as [ga|] eqn:Ea; [|left; reflexivity].
+  rewrite (sdp_after_value st st1 ce tbl s ga Ea).
+  destruct (get_group st s) as [gb|] eqn:Eb; [|right; reflexivity].
+  destruct (slots_eqb gb ga) eqn:Es; [|right; reflexivity].
+  apply slots_eqb_slots in Es. destruct (H s) as [X|X]; [left; exact X|right].
+  rewrite X. unfold source_of. rewrite Eb. apply slots_source. assumption.
+Qed.
+
+Lemma sdp_table_inv : forall st st1 ce tbl, is_dispose ce = false ->
+  (forall s, lookup_sdp s tbl = source_of st s) ->
+  forall s, lookup_sdp s (sdp_table true st st1 ce tbl) = source_of st1 s.
+Proof.
+  intros st st1 ce tbl Hd H s. unfold sdp_table. rewrite Hd.
+  rewrite lookup_sdp_table. unfold source_of. change (get_group st1 s) with (lookup s (st_groups st1)).
+  destruct (lookup s (st_groups st1)) as [ga|] eqn:Ea; [|reflexivity].
+  rewrite (sdp_after_value st st1 ce tbl s ga Ea).
+  destruct (get_group st s) as [gb|] eqn:Eb; [|reflexivity].
+  destruct (slots_eqb gb ga) eqn:Es; [|reflexivity].
+  apply slots_eqb_slots in Es. rewrite H. unfold source_of. rewrite Eb. apply slots_source. assumption.
+Qed.
+
+Theorem sdp_ok_step : forall fsh fx cf ds de, SDP_OK ds -> SDP_OK (fst (fst (dstep true fsh fx cf ds de))).
 Proof.
   intros fsh fx cf ds de H. destruct de as [ce|s i|s]; cbn [dstep].
   - destruct (cstep fsh fx cf (ds_shell ds) ce) as [[cs1 r] ns]. cbn [fst]. intros s. cbn [ds_sdp ds_shell].
-    apply sdp_table_inv. exact H.
+    apply sdp_table_ok. exact H.
   - destruct (cstep fsh fx cf (ds_shell ds) (CE (EPullSucc s i))) as [[cs1 r] ns]. cbn [fst]. intros s0. cbn [ds_sdp ds_shell].
-    apply sdp_table_inv. exact H.
+    apply sdp_table_ok. exact H.
   - exact H.
 Qed.
 
-Theorem sdp_inv_run : forall fsh fx cf h ds, SDP_INV ds -> SDP_INV (fst (drun true fsh fx cf ds h)).
+Theorem sdp_ok_run : forall fsh fx cf h ds, SDP_OK ds -> SDP_OK (fst (drun true fsh fx cf ds h)).
 Proof.
   intros fsh fx cf h. induction h as [|e t IH]; intros ds H; [exact H|].
-  cbn [drun]. pose proof (sdp_inv_step fsh fx cf ds e H) as H1.
+  cbn [drun]. pose proof (sdp_ok_step fsh fx cf ds e H) as H1.
   destruct (dstep true fsh fx cf ds e) as [[ds1 r] ns]. cbn [fst] in H1.
   specialize (IH ds1 H1). destruct (drun true fsh fx cf ds1 t) as [ds2 ns2]. exact IH.
 Qed.
 
-(* After any history on the repaired tree: what the group of stream s holds (and answers an RTSP DESCRIBE with) is
-   the SDP of the RTSP publisher / RTSP relay pull that IS its accepted input, and nothing when its input is of
-   another kind or absent.  In particular it is never the SDP of an input that was refused or has departed. *)
-Theorem sdp_is_of_accepted_input : forall fsh fx cf h s,
-  let ds := fst (drun true fsh fx cf init_dstate h) in
-  snd (fst (dstep true fsh fx cf ds (DSdp s))) =
-  DRSdp (match get_group (cs_base (ds_shell ds)) s with Some g => sdp_source s g | None => None end).
+Definition not_dispose (de : devent) : bool := match de with DE ce => negb (is_dispose ce) | _ => true end.
+
+Theorem sdp_inv_step : forall fsh fx cf ds de, not_dispose de = true -> SDP_INV ds -> SDP_INV (fst (fst (dstep true fsh fx cf ds de))).
 Proof.
-  intros fsh fx cf h s ds. cbn [dstep snd fst]. f_equal.
-  exact (sdp_inv_run fsh fx cf h init_dstate sdp_inv_init s).
+  intros fsh fx cf ds de Hd H. destruct de as [ce|s i|s]; cbn [dstep].
+  - destruct (cstep fsh fx cf (ds_shell ds) ce) as [[cs1 r] ns]. cbn [fst]. intros s. cbn [ds_sdp ds_shell].
+    apply sdp_table_inv; [apply negb_true_iff; exact Hd|exact H].
+  - destruct (cstep fsh fx cf (ds_shell ds) (CE (EPullSucc s i))) as [[cs1 r] ns]. cbn [fst]. intros s0. cbn [ds_sdp ds_shell].
+    apply sdp_table_inv; [reflexivity|exact H].
+  - exact H.
 Qed.
 
-(* an event that leaves the input slots of a group alone leaves its SDP alone (no invariant needed) *)
-Theorem unchanged_slots_keep_sdp : forall st st1 ce tbl s gb ga,
+Theorem sdp_inv_run : forall fsh fx cf h ds, forallb not_dispose h = true -> SDP_INV ds -> SDP_INV (fst (drun true fsh fx cf ds h)).
+Proof.
+  intros fsh fx cf h. induction h as [|e t IH]; intros ds Hh H; [exact H|].
+  cbn [forallb] in Hh. apply andb_true_iff in Hh. destruct Hh as [He Ht].
+  cbn [drun]. pose proof (sdp_inv_step fsh fx cf ds e He H) as H1.
+  destruct (dstep true fsh fx cf ds e) as [[ds1 r] ns]. cbn [fst] in H1.
+  specialize (IH ds1 Ht H1). destruct (drun true fsh fx cf ds1 t) as [ds2 ns2]. exact IH.
+Qed.
+
+(* After ANY history on the repaired tree: if the group of stream s holds an SDP at all (the one an RTSP DESCRIBE is
+   answered with), it is the SDP of the RTSP publisher / RTSP relay pull that IS its accepted input - never that of
+   an input that was refused or has departed, never anything when the input is of another kind or absent. *)
+Theorem sdp_is_of_accepted_input : forall fsh fx cf h s,
+  let ds := fst (drun true fsh fx cf init_dstate h) in
+  snd (fst (dstep true fsh fx cf ds (DSdp s))) = DRSdp None \/
+  snd (fst (dstep true fsh fx cf ds (DSdp s))) = DRSdp (source_of (cs_base (ds_shell ds)) s).
+Proof.
+  intros fsh fx cf h s ds. cbn [dstep snd fst].
+  destruct (sdp_ok_run fsh fx cf h init_dstate (sdp_inv_ok _ sdp_inv_init) s) as [X|X]; fold ds in X; rewrite X; [left|right]; reflexivity.
+Qed.
+
+(* ... and as long as the server has not been disposed (ServerManager.Dispose drops the SDP of every group, also of one
+   whose relay pull it leaves attached) the group holds exactly the SDP of its accepted RTSP input *)
+Theorem sdp_exact_until_dispose : forall fsh fx cf h s, forallb not_dispose h = true ->
+  let ds := fst (drun true fsh fx cf init_dstate h) in
+  snd (fst (dstep true fsh fx cf ds (DSdp s))) = DRSdp (source_of (cs_base (ds_shell ds)) s).
+Proof.
+  intros fsh fx cf h s Hh ds. cbn [dstep snd fst]. f_equal.
+  exact (sdp_inv_run fsh fx cf h init_dstate Hh sdp_inv_init s).
+Qed.
+
+(* an event other than Dispose that leaves the input slots of a group alone leaves its SDP alone (no invariant needed) *)
+Theorem unchanged_slots_keep_sdp : forall st st1 ce tbl s gb ga, is_dispose ce = false ->
   get_group st s = Some gb -> get_group st1 s = Some ga -> slots ga = slots gb ->
   lookup_sdp s (sdp_table true st st1 ce tbl) = lookup_sdp s tbl.
 Proof.
-  intros st st1 ce tbl s gb ga Hb Ha Hs. unfold sdp_table. rewrite lookup_sdp_table.
-  unfold get_group in Ha. rewrite Ha. unfold sdp_after. cbn [snd]. rewrite Hb.
-  assert (E : slots_eqb gb ga = true) by (apply slots_eqb_slots; symmetry; assumption). rewrite E.
-  destruct (rtsp_pull_refused st st1 ce) as [[s' i]|]; [rewrite andb_false_r|]; reflexivity.
+  intros st st1 ce tbl s gb ga Hd Hb Ha Hs. unfold sdp_table. rewrite Hd. rewrite lookup_sdp_table.
+  unfold get_group in Ha. rewrite Ha. rewrite (sdp_after_value st st1 ce tbl s ga Ha). rewrite Hb.
+  assert (E : slots_eqb gb ga = true) by (apply slots_eqb_slots; symmetry; assumption). rewrite E. reflexivity.
 Qed.
 
 (* ... so an event about a session that is not the accepted input of stream s - a refused arrival, the departure
@@ -105,7 +177,8 @@ Theorem foreign_event_keeps_sdp : forall cf st e x s g tbl,
 Proof.
   intros cf st e x s g tbl Hg Hin Hs Ho.
   destruct (foreign_event_step fixed_tree eq_refl eq_refl cf st e x s g Hs Hg Hin Ho) as [g' [Hg' [Hsl _]]].
-  exact (unchanged_slots_keep_sdp st _ (CE e) tbl s g g' Hg Hg' Hsl).
+  assert (Hd : is_dispose (CE e) = false) by (destruct e; try reflexivity; discriminate Hs).
+  exact (unchanged_slots_keep_sdp st _ (CE e) tbl s g g' Hd Hg Hg' Hsl).
 Qed.
 
 (* ---- media behind the answer of the origin ------------------------------------------------------------- *)
